@@ -130,6 +130,12 @@ def rdist(d, style=0):
         return "Categorical(" + ", ".join(rscalar(p, style) for p in d[1]) + ")"
     if d[0] == "duniform":
         return f"DiscreteUniform({d[1]}, {d[2]})"
+    if d[0] == "normal":
+        return f"Normal({rpoly(d[1], style) or '0'}, {rscalar(d[2], style)})"
+    if d[0] == "uniform":
+        return f"Uniform({rpoly(d[1], style) or '0'}, {rpoly(d[2], style) or '0'})"
+    if d[0] == "laplace":
+        return f"Laplace({rpoly(d[1], style) or '0'}, {rscalar(d[2], style)})"
     raise ValueError(d[0])
 
 
@@ -228,6 +234,10 @@ def map_scalars(P, f):
             return ("bernoulli", f(d[1]))
         if d[0] == "categorical":
             return ("categorical", [f(p) for p in d[1]])
+        if d[0] in ("normal", "laplace"):
+            return (d[0], mp(d[1]), f(d[2]))
+        if d[0] == "uniform":
+            return ("uniform", mp(d[1]), mp(d[2]))
         return d
 
     def ms(ss):
@@ -331,7 +341,7 @@ class Gen:
 
         self.fin, self.num, self.fvals, self.fkind = fin, num, fvals, fkind
         self.use_param = use_param
-        self.linear_only = pf.get("linear_only", r.random() < 0.4)
+        self.linear_only = True if pf.get("cont") else pf.get("linear_only", r.random() < 0.4)
         body = self.block(depth=0, budget=r.randint(2, 4))
         # every finite variable is assigned somewhere at the top level of the body (otherwise it would be
         # a loop constant); draws mostly come first so that conditions are fresh
@@ -439,6 +449,15 @@ class Gen:
 
     def num_update(self, x):
         r = self.r
+        if self.profile.get("cont") and r.random() < 0.4:
+            # continuous draw with a state-dependent location (constant scale): x stays affine in the draws
+            loc = self.num_expr(x, False)
+            fam = r.choice(["normal", "normal", "uniform", "laplace"])
+            if fam == "normal":
+                return ("draw", x, ("normal", loc, r.choice([F(1), F(4), F(1, 4), F(2), F(9, 4)])), ("true",), x)
+            if fam == "laplace":
+                return ("draw", x, ("laplace", loc, r.choice([F(1), F(2), F(1, 2), F(3, 2)])), ("true",), x)
+            return ("draw", x, ("uniform", loc, padd(loc, const(r.choice([1, 2, F(1, 2), 3])))), ("true",), x)
         k = r.choice([1, 1, 2, 2, 3])
         if k == 1:
             return ("assign", x, [(F(1), self.num_expr(x))], ("true",), x)
@@ -526,7 +545,8 @@ def paths(stmts):
             n *= len(s[2])
         elif s[0] == "draw":
             d = s[2]
-            n *= 2 if d[0] == "bernoulli" else len(d[1]) if d[0] in ("categorical", "finite") else d[2] - d[1] + 1
+            n *= 2 if d[0] == "bernoulli" else len(d[1]) if d[0] in ("categorical", "finite") else \
+                3 if d[0] in ("normal", "uniform", "laplace") else d[2] - d[1] + 1
         elif s[0] == "simul":
             n *= paths(s[1])
         elif s[0] == "if":
